@@ -170,7 +170,11 @@ impl B {
         }
     }
     fn extend_iter(&mut self, kind: BKind, items: &[(Vec<u8>, u64)], consumed: &std::cell::Cell<usize>) -> Result<(), fst::Error> {
-        let it = items.iter().inspect(|_| consumed.set(consumed.get() + 1));
+        // an iterator without a size hint for every other call
+        let mut inner = items.iter();
+        let hintless = items.len() % 2 == 1;
+        let it: Box<dyn Iterator<Item = &(Vec<u8>, u64)>> = if hintless { Box::new(std::iter::from_fn(move || inner.next())) } else { Box::new(inner) };
+        let it = it.inspect(|_| consumed.set(consumed.get() + 1));
         match self {
             B::Map(b) => b.extend_iter(it.map(|(k, v)| (k, *v))),
             B::Set(b) => b.extend_iter(it.map(|(k, _)| k)),
@@ -248,11 +252,25 @@ pub fn check(c: &Case, rec: &mut Rec) -> CheckResult {
                 }
             }
         }
+        // each once from an iterator with an exact size hint and once from one without any
+        let mut it = c.ops.iter();
         let results: Vec<(&str, Result<Vec<u8>, fst::Error>)> = match c.kind {
-            BKind::Map => vec![("Map::from_iter", fst::Map::from_iter(c.ops.iter().map(|(k, v)| (k, *v))).map(|m| m.into_fst().into_inner()))],
-            BKind::Set => vec![("Set::from_iter", fst::Set::from_iter(c.ops.iter().map(|(k, _)| k)).map(|m| m.into_fst().into_inner()))],
-            BKind::RawInsert => vec![("Fst::from_iter_map", fst::raw::Fst::from_iter_map(c.ops.iter().map(|(k, v)| (k, *v))).map(|m| m.into_inner()))],
-            BKind::RawAdd => vec![("Fst::from_iter_set", fst::raw::Fst::from_iter_set(c.ops.iter().map(|(k, _)| k)).map(|m| m.into_inner()))],
+            BKind::Map => vec![
+                ("Map::from_iter", fst::Map::from_iter(c.ops.iter().map(|(k, v)| (k, *v))).map(|m| m.into_fst().into_inner())),
+                ("Map::from_iter(no size hint)", fst::Map::from_iter(std::iter::from_fn(|| it.next().map(|(k, v)| (k, *v)))).map(|m| m.into_fst().into_inner())),
+            ],
+            BKind::Set => vec![
+                ("Set::from_iter", fst::Set::from_iter(c.ops.iter().map(|(k, _)| k)).map(|m| m.into_fst().into_inner())),
+                ("Set::from_iter(no size hint)", fst::Set::from_iter(std::iter::from_fn(|| it.next().map(|(k, _)| k))).map(|m| m.into_fst().into_inner())),
+            ],
+            BKind::RawInsert => vec![
+                ("Fst::from_iter_map", fst::raw::Fst::from_iter_map(c.ops.iter().map(|(k, v)| (k, *v))).map(|m| m.into_inner())),
+                ("Fst::from_iter_map(no size hint)", fst::raw::Fst::from_iter_map(std::iter::from_fn(|| it.next().map(|(k, v)| (k, *v)))).map(|m| m.into_inner())),
+            ],
+            BKind::RawAdd => vec![
+                ("Fst::from_iter_set", fst::raw::Fst::from_iter_set(c.ops.iter().map(|(k, _)| k)).map(|m| m.into_inner())),
+                ("Fst::from_iter_set(no size hint)", fst::raw::Fst::from_iter_set(std::iter::from_fn(|| it.next().map(|(k, _)| k))).map(|m| m.into_inner())),
+            ],
         };
         for (name, r) in results {
             match (&want, r) {
